@@ -10,7 +10,7 @@ ID = "C16"
 LEAN_MODULES = ["Econf.Props.C16", "Econf.Props.Tie"]
 THEOREMS = ["Econf.C16_gate", "Econf.C16_refused", "Econf.C16_reset", "Econf.C16_all_pass_history", "Econf.C16_all_pass_file", "Econf.C16_first_refused", "Econf.Struct.tie_gate_codes"]
 SHRINK = False
-RULE = ("small trees x every consulted file assigned {matching, foreign} owner and group and {regular, symbolic link} at random x every "
+RULE = ("small trees x every consulted file assigned {matching, foreign} owner and group and {regular, symbolic link to a file elsewhere, symbolic link to /dev/null} at random x every "
         "subset of {required owner, required group, no symlinks} (the setters called in any order, the symbolic-link rule also set and lifted again or stated as the default) x read entry points (single file, layered, two-directory, history); "
         "the result is compared with: code of the first offending consulted file and no content, or the unrestricted result; after the "
         "reset call the read must equal the unrestricted one; non-trivial = a restriction is active and a file consulted; "
@@ -39,10 +39,14 @@ def make(rng, sid):
         g = FGID if rng.random() < 0.2 else GID
         link = kind == "link"
         if kind == "file" and rng.random() < 0.2:
-            store += 1
-            target = b"/store/f%d" % store
-            new.append((target, "file", payload, UID, GID))
-            new.append((path, "link", target, u, g))
+            if rng.random() < 0.35:
+                # a link to /dev/null (the way a name is switched off) is a symbolic link like any other
+                new.append((path, "link", b"/dev/null", u, g))
+            else:
+                store += 1
+                target = b"/store/f%d" % store
+                new.append((target, "file", payload, UID, GID))
+                new.append((path, "link", target, u, g))
             link = True
         else:
             new.append((path, kind, payload, u, g))
